@@ -48,6 +48,7 @@ OUTSIDE = [
     'rootX/s.txt', 'rootX/f.txt', 'rootX/g.txt', 'rootX/sub/g.txt', 'rootX/secret.txt',
     'r/f.txt', 'r/g.txt', 'r/sub/g.txt', 'r/secret.txt', 'r/root/f.txt', 'r/root/sub/g.txt',
 ]
+READ_CAP = 1 << 16
 WALK_CAP = 64       # the whole fixture has < 30 files: a longer walk has left it
 
 
@@ -176,7 +177,7 @@ def make_systems(world: World) -> dict:
 NOTFOUND = (FileNotFoundError, NotADirectoryError, IsADirectoryError)
 
 
-def run_op(fs, op: str, p: str):
+def run_op(fs, op: str, p: str, root_dir: str = '', prefix: str = ''):
     """Execute one operation on the real filesystem object; return a plain observation tuple."""
     try:
         if op == 'in':
@@ -185,26 +186,32 @@ def run_op(fs, op: str, p: str):
             f = fs[p]
             try:
                 with f.open_bin() as h:
-                    return ('file', f.path, h.name, h.read())
+                    return ('file', f.path, h.name, h.read(READ_CAP))
             except RootEscapeError:
                 return ('file_unopenable', f.path, 'RootEscapeError')
             except NOTFOUND as e:
                 return ('file_unopenable', f.path, type(e).__name__)
         if op == 'open_bin':
             with fs.open_bin(p) as h:
-                return ('handle', h.name, h.read())
+                return ('handle', h.name, h.read(READ_CAP))
         if op == 'open_str':
             with fs.open_str(p) as h:
-                return ('handle', h.name, h.read().encode('utf8'))
+                return ('handle', h.name, h.read(READ_CAP).encode('utf8'))
         if op == 'walk':
             items = []
             for f in fs.walk_folder(p):
                 if len(items) >= WALK_CAP:
                     items.append(('CAP', '', b''))
                     break
+                # where the listed File lives, from its path alone; a file outside the root is reported WITHOUT
+                # being opened (a broken constraint may list devices or huge files)
+                loc = os.path.normpath(os.path.join(root_dir, prefix, f.path))
+                if not (loc == root_dir or loc.startswith(root_dir + '/')):
+                    items.append((f.path, loc, None))
+                    continue
                 try:
                     with f.open_bin() as h:
-                        items.append((f.path, h.name, h.read()))
+                        items.append((f.path, h.name, h.read(READ_CAP)))
                 except RootEscapeError:
                     items.append((f.path, None, b'<RootEscapeError>'))
                 except NOTFOUND as e:
@@ -231,7 +238,7 @@ def cause_of(world: World, locs) -> str:
 def check_call(acc: core.Acc, world: World, cfg: str, fs, prefix: str, op: str, segs: list, seps: list,
                p: str, narrow: set, broad: set) -> None:
     acc.evaluations += 1
-    obs = run_op(fs, op, p)
+    obs = run_op(fs, op, p, world.real_root, prefix)
     tag = obs[0]
     via = 'chain' if cfg.startswith('chain') else 'direct'
     all_outside = all(not world.is_inside(l) for l in narrow)
@@ -310,6 +317,12 @@ def check_call(acc: core.Acc, world: World, cfg: str, fs, prefix: str, op: str, 
         for fpath, hname, data in items:
             if fpath == 'CAP':
                 fail('walk_left_fixture', f'walk_folder yielded more than {WALK_CAP} files')
+                ok = False
+                break
+            if data is None:
+                fail('outside_file_listed', f'walk_folder -> File(path={world.show(fpath)!r}) lives at '
+                                            f'{world.show(hname)!r}, outside the root (not opened)',
+                     locs=[tuple(c for c in hname.split('/') if c)])
                 ok = False
                 break
             if hname is None:
